@@ -461,7 +461,7 @@ func Universe(quick bool) []Case {
 
 func Main(r *core.Run) {
 	cases := Universe(r.Quick())
-	r.Rule("values (trees ≤3/≤4 over 13 leaves + every alphabet scalar at every position kind + all permutations of key sets ≤3) × every registered codec within its domain × prototypes {sha2-256 full/32/20/1, sha2-512 full/32, identity} × {basicnode Any, kind prototypes, foreign refnode}; every registered hash function × digest length {full,20,1,64} on three values; explicit-state search over store/compute/load histories keyed by (stored set, last operation) to fixpoint, plus every operation sequence to depth 3/4. Non-trivial = map with ≥2 entries or truncated/identity digest or history with ≥2 operations; distinct by (value, order, proto, impl) / by history.")
+	r.Rule("values (trees ≤3/≤4 over 13 leaves + every alphabet scalar at every position kind + all permutations of key sets ≤3) × every registered codec within its domain × prototypes {sha2-256 full/32/20/1, sha2-512 full/32, identity} × {basicnode Any, kind prototypes, foreign refnode}; every registered hash function × digest length {full,20,1,64} on three values; typed (bindnode) nodes stored and linked through the same system (Store = ComputeLink = link of Encode(node)); explicit-state search over store/compute/load histories keyed by (stored set, last operation) to fixpoint, plus every operation sequence to depth 3/4. Non-trivial = map with ≥2 entries or truncated/identity digest or history with ≥2 operations; distinct by (value, order, proto, impl) / by history.")
 	r.Assume("dag-json/json domain excludes integral floats: their kind change is the recorded C04 finding, not re-reported here")
 	r.Assume("hand-assembled reference CIDs for sha2-256, sha2-512, identity (crypto/sha256, crypto/sha512); other hash functions: store=compute=load self-consistency")
 	r.Set("registered_hashers", len(AllHashers()))
